@@ -90,6 +90,8 @@ type c01Repo struct {
 	wrepo  *git.Repository
 	gitst  [2]*filesystem.Storage
 	readst string
+	swdir  string              // directory of the handle below
+	swst   *filesystem.Storage // created without a format, switched with SetObjectFormat, never reopened
 }
 
 func newC01Repo(f objFormat) (*c01Repo, error) {
@@ -105,6 +107,24 @@ func newC01Repo(f objFormat) (*c01Repo, error) {
 	}
 	r.st = filesystem.NewStorageWithOptions(osfs.New(r.bare), cache.NewObjectLRUDefault(), filesystem.Options{})
 	r.stBig = filesystem.NewStorageWithOptions(osfs.New(r.bare), cache.NewObjectLRUDefault(), filesystem.Options{LargeObjectThreshold: 64 << 10})
+	// the switched handle: what a clone from a remote of this format does to a fresh storage
+	r.swdir = filepath.Join(root, "switched.git")
+	if err := os.MkdirAll(r.swdir, 0o755); err != nil {
+		return nil, err
+	}
+	r.swst = filesystem.NewStorageWithOptions(osfs.New(r.swdir), cache.NewObjectLRUDefault(), filesystem.Options{})
+	if err := r.swst.Init(); err != nil {
+		return nil, fmt.Errorf("Init: %w", err)
+	}
+	if err := r.swst.SetObjectFormat(gogitFormat(f)); err != nil {
+		return nil, fmt.Errorf("SetObjectFormat: %w", err)
+	}
+	if err := r.swst.SetReference(plumbing.NewSymbolicReference(plumbing.HEAD, plumbing.Master)); err != nil {
+		return nil, err
+	}
+	if err := os.MkdirAll(filepath.Join(r.swdir, "refs", "heads"), 0o755); err != nil {
+		return nil, err
+	}
 	var err error
 	r.wrepo, err = git.PlainOpen(r.work)
 	if err != nil {
@@ -252,16 +272,45 @@ func c01(args []string) error {
 		}
 		r.Eval(1)
 		var werr error
+		st := rp.st
+		if strings.HasPrefix(row.W.Ep, "Switched") {
+			st = rp.swst
+		}
 		switch row.W.Ep {
-		case "SetEncodedObject":
-			o := rp.st.NewEncodedObject()
+		case "SwitchedReadBack":
+			// git writes into the directory of the switched handle, the handle reads
+			gid, err := gitOut(rp.swdir, content, "hash-object", "-w", "-t", row.W.Type, "--literally", "--stdin")
+			if err != nil {
+				return err
+			}
+			if gid != id {
+				return fmt.Errorf("git names the same content %s and %s in two repositories of one format", gid, id)
+			}
+			h, _ := plumbing.FromHex(id)
+			o, err := st.EncodedObject(plumbing.AnyObject, h)
+			if err != nil {
+				werr = fmt.Errorf("EncodedObject(%s) on the switched handle: %w", id, err)
+				break
+			}
+			w.gogitID = o.Hash().String()
+			rd, err := o.Reader()
+			var b []byte
+			if err == nil {
+				b, err = io.ReadAll(rd)
+				rd.Close()
+			}
+			if err != nil || o.Type() != typ || o.Size() != int64(len(content)) || !bytes.Equal(b, content) {
+				div("reads-git-object-differently", fmt.Sprintf("type %s Size %d, %d bytes, err %v; git wrote %s, %d bytes", o.Type(), o.Size(), len(b), err, row.W.Type, len(content)))
+			}
+		case "SetEncodedObject", "SwitchedSetEncodedObject":
+			o := st.NewEncodedObject()
 			o.SetType(typ)
 			o.SetSize(int64(len(content)))
 			ow, _ := o.Writer()
 			ow.Write(content)
 			ow.Close()
 			var h plumbing.Hash
-			h, werr = rp.st.SetEncodedObject(o)
+			h, werr = st.SetEncodedObject(o)
 			w.gogitID = h.String()
 		case "RawObjectWriter":
 			var ow io.WriteCloser
@@ -272,8 +321,8 @@ func c01(args []string) error {
 					werr = cerr
 				}
 			}
-		case "LazyWriter":
-			ow, wh, err := rp.st.LazyWriter()
+		case "LazyWriter", "SwitchedLazyWriter":
+			ow, wh, err := st.LazyWriter()
 			werr = err
 			if werr == nil {
 				werr = wh(typ, int64(len(content)))
@@ -319,6 +368,9 @@ func c01(args []string) error {
 			if row.W.Ep == "WorktreeAdd" {
 				dir = filepath.Join(rp.work, ".git")
 			}
+			if strings.HasPrefix(row.W.Ep, "Switched") {
+				dir = rp.swdir
+			}
 			p := filepath.Join(dir, "objects", id[:row.Expect.Dirlen], id[row.Expect.Dirlen:])
 			if len(id[row.Expect.Dirlen:]) != row.Expect.Filelen {
 				return fmt.Errorf("spec file name length %d, id %s", row.Expect.Filelen, id)
@@ -346,12 +398,17 @@ func c01(args []string) error {
 	// git reads what go-git wrote (one cat-file --batch per directory)
 	for _, f := range []string{"sha1", "sha256"} {
 		rp := repos[f]
-		for _, dir := range []string{rp.bare, filepath.Join(rp.work, ".git")} {
+		for _, dir := range []string{rp.bare, filepath.Join(rp.work, ".git"), rp.swdir} {
 			var ids []string
 			var sel []written
 			for _, w := range ws {
-				isWork := w.row.W.Ep == "WorktreeAdd"
-				if w.row.W.Fmt == f && w.row.Expect.Stored && isWork == (dir != rp.bare) {
+				wdir := rp.bare
+				if w.row.W.Ep == "WorktreeAdd" {
+					wdir = filepath.Join(rp.work, ".git")
+				} else if strings.HasPrefix(w.row.W.Ep, "Switched") {
+					wdir = rp.swdir
+				}
+				if w.row.W.Fmt == f && w.row.Expect.Stored && wdir == dir {
 					ids = append(ids, w.gitID)
 					sel = append(sel, w)
 				}
